@@ -267,3 +267,51 @@ func VH_C14_lifetime_any_timeout() {
 func VH_C14_lifetime() { verifC14Life(3) }
 
 func VH_C14_lifetime_T() { verifC14Life(4) }
+
+// a service with two packet listeners (one handler, two Handle calls): one listener is shut down;
+// the associations of the other are not touched by that — still there at the last promised instant
+func VH_C14_other_listeners_shutdown() {
+	verifResetNet()
+	verifTargetDeadlines = true
+	verifDeadlineTargets = nil
+	defer func() { verifTargetDeadlines = false }()
+	tmo := 30 * time.Second
+	cl, specs, _ := verifMakeList(1, 1, false)
+	key := verifKey(specs[0].cipher, verifSecrets[specs[0].secret])
+	um := &verifUDPMetrics{}
+	h := NewPacketHandler(tmo, cl, um, nil)
+	mk := func(port int) *verifChanPC {
+		return &verifChanPC{in: make(chan verifRead), closedCh: make(chan struct{}), local: &net.UDPAddr{IP: net.IPv4(192, 0, 2, 1), Port: port}}
+	}
+	c1, c2 := mk(9), mk(10)
+	done1, done2 := make(chan struct{}), make(chan struct{})
+	go func() { h.Handle(c1); close(done1) }()
+	go func() { h.Handle(c2); close(done2) }()
+	tBefore := time.Now()
+	verifInject(c1, verifPack(key, verifSocksV4([]byte{93, 184, 216, 34}, 443, []byte{'q'})), verifClientAddrs[0])
+	verifPause()
+	verifQuiesce()
+	verifAssert("C14.other-listener.association-opened", len(um.entries) == 1 && len(verifDeadlineTargets) == 1)
+	if len(verifDeadlineTargets) != 1 {
+		return
+	}
+	// the other listener goes away (a reload dropped it)
+	c2.Close()
+	verifPause()
+	verifQuiesce()
+	<-done2
+	p := tBefore.Add(tmo - time.Nanosecond)
+	verifClockAtLeast(p)
+	verifDeadlineTargets[0].setClock(p)
+	verifPause()
+	verifQuiesce()
+	verifAssert("C14.other-listener.association-untouched-by-another-listeners-shutdown", um.entries[0].removed == 0 && verifDeadlineTargets[0].Closed() == 0)
+	c1.Close()
+	verifQuiesce()
+	for _, t := range verifDeadlineTargets {
+		t.setClock(time.Now().Add(time.Hour))
+	}
+	verifQuiesce()
+	<-done1
+	verifReach("C14.other-listener.done", true)
+}
